@@ -119,7 +119,7 @@ func (it *NativeIterator) Merge(oldval []byte) (val []byte, err error) {
 	oldTS := h.Timestamp
 	newTS := header.Timestamp(entry.TimestampNano)
 	actualOldVal := appVal
-	if newTS == 0 {
+	if newTS == 0 && it.DefaultTimestampNano != 0 {
 		// Special handling for main to shadow copy that uses a default timestamp
 		if bytes.Equal(actualOldVal, entryVal) {
 			return oldval, nil // do not update timestamp
